@@ -2,3 +2,4 @@ pub mod c01;
 pub mod c04;
 pub mod c05;
 pub mod c11;
+pub mod c02;
